@@ -208,6 +208,19 @@ def build_inputs(tier):
             s = r.choice(["'t'", 'u"u"', 'U"v"', "f'{v}'", "r'\\d'", "''"]) + " " + s
         ctx = r.choice(["x = {}\n", "print({}, {{1}})\n", "{}\n", "f({}, k={})\n", "y = [{}]\nz = {{'a': 1}}\n", "if {}: pass\n"])
         cases.append(("product", ctx.replace("{}", s.replace("{", "\x01").replace("}", "\x02")).replace("{{", "{").replace("}}", "}").replace("\x01", "{").replace("\x02", "}"), "exec"))
+    # implicit concatenations (inside parentheses, so they may spread over lines) in which the pieces THEMSELVES span lines:
+    # triple-quoted plain strings and f-strings, backslash-newline inside a piece; every order of 2-3 pieces
+    q3 = "'" * 3
+    pieces = ["f'{x}a'", "f'a{x}'", "'b'", f"{q3}c\nd{q3}", f"f{q3}e\n{{y}}{q3}", f"f{q3}{{y}}g\nh{q3}", "r'\\d'", "u'k'", "''", "f''", f"{q3}\n{q3}", "'m\\\nn'", "f'{z!r:>4}'", f"rf{q3}o\np{{w}}{q3}"]
+    import itertools as _it
+
+    combos = list(_it.permutations(range(len(pieces)), 2)) + [tuple(r.sample(range(len(pieces)), 3)) for _ in range(120 * N)]
+    for idx in combos:
+        ps = [pieces[i] for i in idx]
+        if not any(p.lstrip("ru").startswith("f") or p.startswith("rf") for p in ps):
+            continue
+        for sep in [" ", "\n  "]:
+            cases.append(("concat-multiline", "v = (" + sep.join(ps) + ")\n", "exec"))
     for i in range(150 * N):
         g = pyprog.gen_program(r, fstrings=True, maxdepth=3, nstmts=2)
         if g:
